@@ -87,17 +87,16 @@ bool equal_value(const JVal& a, const JVal& b) {
 }
 
 static void canon_str(const std::string& s, std::string& out) {
-  char b[24]; snprintf(b, sizeof b, "s%zu:", s.size()); out += b; out += s;
+  out += 's'; put_u64(out, s.size()); out += ':'; out += s;
 }
 void canon(const JVal& v, std::string& out) {
-  char b[40];
   switch (v.k) {
     case JVal::Null: out += 'n'; break;
     case JVal::False: out += 'f'; break;
     case JVal::True: out += 't'; break;
-    case JVal::Uint: snprintf(b, sizeof b, "u%llu", (unsigned long long)v.u); out += b; break;
-    case JVal::Sint: snprintf(b, sizeof b, "i%lld", (long long)v.i); out += b; break;
-    case JVal::Real: snprintf(b, sizeof b, "d%016llx", (unsigned long long)v.u); out += b; break;
+    case JVal::Uint: out += 'u'; put_u64(out, v.u); break;
+    case JVal::Sint: out += 'i'; put_i64(out, v.i); break;
+    case JVal::Real: out += 'd'; put_hex16(out, v.u); break;
     case JVal::Str: canon_str(v.s, out); break;
     case JVal::Arr:
       out += '[';
@@ -457,7 +456,10 @@ uint64_t gen_double_bits(sim::Rng& r, bool allow_nonfinite) {
 }
 std::string gen_string(sim::Rng& r, const GenOpts& o) {
   size_t len;
-  if (o.big_strings && r.chance(1, 8)) {
+  if (o.huge_strings && r.chance(1, 6)) {
+    static const size_t H[] = {4000, 4095, 4096, 4097, 8192, 16383, 20000, 65472, 65536, 70000};
+    len = H[r.below(10)];
+  } else if (o.big_strings && r.chance(1, 8)) {
     static const int L[] = {15, 16, 17, 31, 32, 33, 47, 63, 64, 65, 100, 129, 200};
     len = (size_t)L[r.below(sizeof(L) / sizeof(L[0]))];
   } else len = (size_t)r.below((uint64_t)o.max_str + 1);
